@@ -34,12 +34,12 @@ type Knobs struct {
 	// NoPoison: released pool buffers keep their contents.
 	NoPoison bool `json:"no_poison,omitempty"`
 	// OtterBatch: write batch size of the memory cache backend (0 = shipped 64).
-	OtterBatch int `json:"otter_batch,omitempty"`
-	UDPMaxBatch  int     `json:"udp_max_batch"`
-	UDPCoalesce  int64   `json:"udp_coalesce_us"`
-	GCEveryUs    int64   `json:"gc_every_us"` // 0 = no scheduled GC
-	LogDebug     bool    `json:"log_debug"`
-	GnetReadCap  int     `json:"gnet_read_cap"`
+	OtterBatch  int   `json:"otter_batch,omitempty"`
+	UDPMaxBatch int   `json:"udp_max_batch"`
+	UDPCoalesce int64 `json:"udp_coalesce_us"`
+	GCEveryUs   int64 `json:"gc_every_us"` // 0 = no scheduled GC
+	LogDebug    bool  `json:"log_debug"`
+	GnetReadCap int   `json:"gnet_read_cap"`
 	// PoolPoison: released pooled objects (messages, records, questions,
 	// request contexts) are poisoned, quarantined and checked (vsync.Pool).
 	PoolPoison bool `json:"pool_poison,omitempty"`
@@ -65,6 +65,9 @@ type RouterPlan struct {
 	Net        NetSpec               `json:"net"`
 	ClockJumps []ClockJump           `json:"clock_jumps,omitempty"`
 	HorizonUs  int64                 `json:"horizon_us"`
+	// LogQueries: log.queries (every answered question is rendered in its
+	// escaped text form).
+	LogQueries bool `json:"log_queries,omitempty"`
 	// MetricsAddr: the prometheus endpoint (started before everything else).
 	MetricsAddr string `json:"metrics_addr,omitempty"`
 	// CloseAtUs > 0: close the router at this time (C18).
@@ -228,7 +231,9 @@ type AnswerSpec struct {
 	TTLs  []uint32 `json:"ttls"`
 	Shape string   `json:"shape"` // plain | binary | suffix | srv | big | unknown | mixed
 	PadTo int      `json:"pad_to,omitempty"`
-	OPT   *UpOPT   `json:"opt,omitempty"`
+	// MaxNames: the name pool also holds names of exactly 255 and 254 octets.
+	MaxNames bool   `json:"max_names,omitempty"`
+	OPT      *UpOPT `json:"opt,omitempty"`
 	// Compress: how the server lays the reply out: 0 none, 1 owners, 2 owners+rdata, 3 +srv
 	Compress int `json:"compress"`
 }
